@@ -11,10 +11,12 @@ repaired code).  Throughout:
 Guards (each an explicit hypothesis where the proof needs it, each with a witness theorem at
 the end of the file showing the conclusion fails without it):
   * `NodupKeys … s.mounts / s.devices` — original mount destinations / device paths distinct
-    (`RemoveMount`/`RemoveDevice` delete only the first match);
+    (`RemoveMount`/`RemoveDevice` delete only the first match); preserved by `adjust`
+    (`C13_mounts_nodup_preserved`, `C13_devices_nodup_preserved`);
   * `Env.WF s.env` — original environment entries are `NAME=value` with distinct non-empty names;
-    adjustment keys contain no `'='` and the name looked up is not `""`;
-  * cleaned mount destinations for "parents first".
+    adjustment keys contain no `'='` and the name looked up is not `""`; preserved by `adjust`
+    (`C13_env_wf_preserved`);
+  * for "parents first": the PARENT's destination is a cleaned path (children may be unclean).
 "Marked" = key starts with `'-'` (removal marker).
 -/
 namespace Nri.Props.C13
@@ -364,7 +366,8 @@ theorem C13_parent_first_clean (hext : ext.CDIFramed) (h : adjust ext s a = .ok 
     · exact ⟨rest, hr⟩
   · rw [hc]; exact hanc
 
-/-- The cleaned-path hypothesis of `C13_parent_first` follows from cleaned INPUTS. -/
+/-- Cleaned INPUTS give a cleaned result (so the hypotheses of `C13_parent_first_clean`, and the
+    hypothesis on the parent in `C13_parent_first`, can be put on the inputs). -/
 theorem C13_clean_paths_preserved (hext : ext.CDIFramed) (h : adjust ext s a = .ok s') (hne : a.mounts ≠ [])
     (h1 : ∀ m ∈ s.mounts, Mounts.cleanPath m.destination = m.destination)
     (h2 : ∀ m ∈ a.mounts, isMarked m.destination = false → Mounts.cleanPath m.destination = m.destination) :
@@ -896,7 +899,7 @@ theorem unfixed_args_marker :
     Args.applyUnfixed [str "old"] [[], str "a", str "b"] = [[], str "a", str "b"] ∧
     Args.apply [str "old"] [[], str "a", str "b"] = [str "a", str "b"] := by decide
 
-/-- The code in /repo (before docs/fixes/C13-1.patch): `[FOO=new, -FOO]` on a spec with `FOO`
+/-- The code before /repo 6eaf34c (removals before additions): `[FOO=new, -FOO]` on a spec with `FOO`
     removes `FOO`; the repaired code keeps the set. -/
 theorem unfixed_env_set_then_remove :
     Env.lookup (Env.applyUnfixed [str "FOO=old"] [⟨str "FOO", str "new"⟩, ⟨str "-FOO", []⟩]) (str "FOO") = none ∧
@@ -919,7 +922,7 @@ theorem unfixed_mounts_set_then_remove :
       = .ok ([{ destination := str "/a", source := str "/new" }], []) := by
   constructor <;> rfl
 
-/-- docs/fixes/C13-1.patch is conservative: the repaired env / device / mount loops compute what
+/-- The repair 6eaf34c (formerly docs/fixes/C13-1.patch) is conservative: the repaired env / device / mount loops compute what
     the code before the repair computes on the same entries with the removals moved to the
     front (stably) — so nothing changes for an adjustment that already lists removals first. -/
 theorem C13_repair_conservative (s : Spec) (ext : Externals) (E : List KeyValue) (D : List LinuxDevice)
